@@ -60,12 +60,18 @@ def _expr(c):
 class SymCtx:
     mode = "sym"
 
-    def __init__(self, prefix=(), timeout_ms=20000, max_enum=64, exp_axioms="full", logic=None):
+    def __init__(self, prefix=(), timeout_ms=20000, max_enum=64, exp_axioms="full", logic=None, fresh=False):
         self.prefix = tuple(prefix)
         self.trace = []
         self.new_prefixes = []
         self.solver = z3.SolverFor(logic) if logic else z3.Solver()
         self.solver.set("timeout", timeout_ms)
+        self.light = z3.SolverFor(logic) if logic else z3.Solver()
+        self.light.set("timeout", min(timeout_ms, 5000))
+        self.use_light = True
+        self.fresh = fresh  # one-shot solver per query: z3 then uses nlsat (incremental mode falls back to the weaker SMT core for NRA)
+        self.pc = []
+        self.hyps = []
         self.timeout_ms = timeout_ms
         self.max_enum = max_enum
         self.exp_axioms = exp_axioms
@@ -82,6 +88,7 @@ class SymCtx:
         self.violations = []
         self.covers = collections.Counter()
         self.used_opaque = 0
+        self.keep = []  # terms whose AST ids are used as cache keys must stay alive
         self.domain_hits = []
         self.notes = []
         self.observed = collections.OrderedDict()
@@ -95,23 +102,37 @@ class SymCtx:
     # -- solver plumbing --------------------------------------------------------
     def _check(self, *extra):
         t0 = time.time()
-        if extra:
-            self.solver.push()
-            for e in extra:
-                self.solver.add(e)
-        r = self.solver.check()
-        m = None
-        if r == z3.sat:
-            m = self.solver.model()
-        if extra:
-            self.solver.pop()
-        self.solver_s += time.time() - t0
+        if self.fresh:
+            sv = z3.Solver()
+            sv.set("timeout", self.timeout_ms)
+            sv.add(*self.pc)
+            sv.add(*extra)
+            r = sv.check()
+            m = sv.model() if r == z3.sat else None
+        else:
+            if extra:
+                self.solver.push()
+                for e in extra:
+                    self.solver.add(e)
+            r = self.solver.check()
+            m = None
+            if r == z3.sat:
+                m = self.solver.model()
+            if extra:
+                self.solver.pop()
+        dt = time.time() - t0
+        self.solver_s += dt
+        if dt > 2 and os.environ.get("SX_SLOW"):
+            print(f"[slow query {dt:.1f}s -> {r}] extra={[str(e)[:300] for e in extra]} n_assert={len(self.pc) if self.fresh else len(self.solver.assertions())}", file=sys.stderr)
         rs = str(r)
         self.nq[rs] += 1
         return rs, m
 
     def add(self, e):
-        self.solver.add(e)
+        if self.fresh:
+            self.pc.append(e)
+        else:
+            self.solver.add(e)
         if self.model is not None:
             try:
                 v = self.model.eval(e, model_completion=True)
@@ -119,6 +140,34 @@ class SymCtx:
                     self.model = None
             except z3.Z3Exception:
                 self.model = None
+
+    def add_hyp(self, e):
+        """A hypothesis (assumption / axiom): goes to the light solver too."""
+        if self.fresh:
+            self.hyps.append(e)
+        else:
+            self.light.add(e)
+        self.add(e)
+
+    def _light(self, e):
+        """True iff the hypotheses alone refute e (then pc and e is unsat too)."""
+        if not self.use_light:
+            return False
+        t0 = time.time()
+        if self.fresh:
+            sv = z3.Solver()
+            sv.set("timeout", min(self.timeout_ms, 5000))
+            sv.add(*self.hyps)
+            sv.add(e)
+            r = sv.check()
+        else:
+            self.light.push()
+            self.light.add(e)
+            r = self.light.check()
+            self.light.pop()
+        self.solver_s += time.time() - t0
+        self.nq["light_" + str(r)] += 1
+        return r == z3.unsat
 
     def feasible(self):
         if self.model is not None:
@@ -163,15 +212,21 @@ class SymCtx:
             except z3.Z3Exception:
                 pass
         if t_feas is None:
-            r, mt = self._check(e)
-            if r == "unknown":
-                raise Inconclusive("solver unknown at branch")
-            t_feas = r == "sat"
+            if self._light(e):
+                t_feas = False
+            else:
+                r, mt = self._check(e)
+                if r == "unknown":
+                    raise Inconclusive("solver unknown at branch")
+                t_feas = r == "sat"
         if f_feas is None:
-            r, mf = self._check(z3.Not(e))
-            if r == "unknown":
-                raise Inconclusive("solver unknown at branch")
-            f_feas = r == "sat"
+            if self._light(z3.Not(e)):
+                f_feas = False
+            else:
+                r, mf = self._check(z3.Not(e))
+                if r == "unknown":
+                    raise Inconclusive("solver unknown at branch")
+                f_feas = r == "sat"
         if t_feas and f_feas:
             self.new_prefixes.append(tuple(self.trace) + (("b", False),))
             d = True
@@ -182,7 +237,10 @@ class SymCtx:
         else:
             raise Infeasible("path condition became unsatisfiable")
         self.trace.append(("b", d))
-        self.solver.add(e if d else z3.Not(e))
+        if self.fresh:
+            self.pc.append(e if d else z3.Not(e))
+        else:
+            self.solver.add(e if d else z3.Not(e))
         self.model = mt if d else mf
         return d
 
@@ -214,26 +272,32 @@ class SymCtx:
                 raise RuntimeError("non-deterministic re-execution (concretize)")
         else:
             vals = []
-            self.solver.push()
+            if self.fresh:
+                sv = z3.Solver()
+                sv.set("timeout", self.timeout_ms)
+                sv.add(*self.pc)
+            else:
+                sv = self.solver
+                sv.push()
             t0 = time.time()
-            while True:
-                r = self.solver.check()
-                self.nq[str(r)] += 1
-                if r == z3.unknown:
-                    self.solver.pop()
-                    raise Inconclusive("solver unknown while concretising an integer")
-                if r == z3.unsat:
-                    break
-                m = self.solver.model()
-                v = m.eval(term, model_completion=True)
-                v = v.as_long()
-                vals.append(v)
-                if len(vals) > self.max_enum:
-                    self.solver.pop()
-                    raise OutOfBound("integer has more than max_enum feasible values")
-                self.solver.add(term != v)
-            self.solver.pop()
-            self.solver_s += time.time() - t0
+            try:
+                while True:
+                    r = sv.check()
+                    self.nq[str(r)] += 1
+                    if r == z3.unknown:
+                        raise Inconclusive("solver unknown while concretising an integer")
+                    if r == z3.unsat:
+                        break
+                    m = sv.model()
+                    v = m.eval(term, model_completion=True).as_long()
+                    vals.append(v)
+                    if len(vals) > self.max_enum:
+                        raise OutOfBound("integer has more than max_enum feasible values")
+                    sv.add(term != v)
+            finally:
+                if not self.fresh:
+                    sv.pop()
+                self.solver_s += time.time() - t0
             if not vals:
                 raise Infeasible("no feasible integer value")
             vals.sort()
@@ -251,7 +315,7 @@ class SymCtx:
             if not c:
                 raise Infeasible("concrete assumption false")
             return
-        self.add(e)
+        self.add_hyp(e)
         if not self.feasible():
             raise Infeasible("assumption infeasible")
 
@@ -259,6 +323,8 @@ class SymCtx:
         e = _expr(c)
         if e is None:
             return bool(c)
+        if self._light(z3.Not(e)):
+            return True
         r, _ = self._check(z3.Not(e))
         if r == "unknown":
             return False
@@ -303,6 +369,9 @@ class SymCtx:
                 return True
             self._violation(label, self.model if self.feasible() else None, "concrete-false")
             return False
+        if self._identity(e) or self._light(z3.Not(e)):
+            self.obligations.append((label, "unsat"))
+            return True
         r, m = self._check(z3.Not(e))
         if r == "unsat":
             self.obligations.append((label, "unsat"))
@@ -312,6 +381,24 @@ class SymCtx:
             return False
         self._violation(label, m, "sat")
         return False
+
+    def _identity(self, e):
+        """Generalised query: is e valid with NO hypotheses at all?  Polynomial
+        identities are refuted-negation in milliseconds this way (nlsat normalises
+        the polynomial), while the same query under the path condition can stall."""
+        try:
+            if not (z3.is_eq(e) and z3.is_arith(e.arg(0))):
+                return False
+            t0 = time.time()
+            s = z3.Solver()
+            s.set("timeout", 5000)
+            s.add(z3.Not(e))
+            r = s.check()
+            self.solver_s += time.time() - t0
+            self.nq["generalised_" + str(r)] += 1
+            return r == z3.unsat
+        except z3.Z3Exception:
+            return False
 
     def prove_eq(self, a, b, label):
         from .values import Sym, lift
@@ -349,9 +436,9 @@ class SymCtx:
         t = z3.Real(name)
         self.inputs[name] = ("real", t)
         if lo is not None:
-            self.add(t >= rv(lo))
+            self.add_hyp(t >= rv(lo))
         if hi is not None:
-            self.add(t <= rv(hi))
+            self.add_hyp(t <= rv(hi))
         return Sym(t)
 
     def int(self, name, lo=None, hi=None):
@@ -359,9 +446,9 @@ class SymCtx:
         t = z3.Int(name)
         self.inputs[name] = ("int", t)
         if lo is not None:
-            self.add(t >= lo)
+            self.add_hyp(t >= lo)
         if hi is not None:
-            self.add(t <= hi)
+            self.add_hyp(t <= hi)
         return Sym(t, is_int=True)
 
     def bool(self, name):
@@ -375,7 +462,7 @@ class SymCtx:
         from .values import Sym, ZERO, ONE
         t = z3.Real(name)
         self.inputs[name] = ("explog", t)
-        self.add(t > 0 if positive else t >= 0)
+        self.add_hyp(t > 0 if positive else t >= 0)
         return Sym(ZERO, t, ONE)
 
     # -- special functions -------------------------------------------------------
@@ -404,7 +491,7 @@ class SymCtx:
                 ax.append(z3.Implies(atom == a2, X == X2))
         self.atom_list.append((X, Y, atom))
         for a in ax:
-            self.add(a)
+            self.add_hyp(a)
         return X, Y
 
     def sqrt_term(self, u):
@@ -415,8 +502,9 @@ class SymCtx:
             return None
         s = z3.Real(f"sqrt!{len(self.aux)}")
         self.aux[key] = s
-        self.add(s >= 0)
-        self.add(s * s == u)
+        self.keep.append(u)
+        self.add_hyp(s >= 0)
+        self.add_hyp(s * s == u)
         return s
 
     def cbrt_term(self, u):
@@ -425,7 +513,8 @@ class SymCtx:
             return self.aux[key]
         s = z3.Real(f"cbrt!{len(self.aux)}")
         self.aux[key] = s
-        self.add(s * s * s == u)
+        self.keep.append(u)
+        self.add_hyp(s * s * s == u)
         return s
 
     def func(self, name, arity=1):
@@ -440,7 +529,8 @@ class SymCtx:
         s, c = self.func("sin")(t), self.func("cos")(t)
         if key not in self.aux:
             self.aux[key] = True
-            self.add(s * s + c * c == 1)
+            self.keep.append(t)
+            self.add_hyp(s * s + c * c == 1)
         return s if which == "sin" else c
 
     def opaque(self, op, *operands):
@@ -456,6 +546,7 @@ class SymCtx:
         if got is None:
             got = z3.Real(f"opq_{op}!{len(self.aux)}")
             self.aux[key] = got
+            self.keep.extend(o for o in operands)
         self.used_opaque += 1
         return Sym(got)
 
